@@ -21,6 +21,7 @@ class SimLine:
         self.taps: list = []
         self.sinks: dict = {}  # port name -> callable(bytes): harness-side receiver (kernel context)
         self.corrupt = None  # callable(direction, offset_in_stream, byte) -> byte
+        self.corrupt_write = None  # callable(src, bytes) -> bytes
         self.sent = {a: 0, b: 0}
         self.last_deliver = {a: 0.0, b: 0.0}
         kernel.lines[a] = self
@@ -36,6 +37,8 @@ class SimLine:
         self.sent[src] += len(data)
         for tap in self.taps:
             tap(src, data)
+        if self.corrupt_write is not None:
+            data = bytes(self.corrupt_write(src, data))   # fault: what arrives differs from what was written
         if self.corrupt is not None:
             data = bytes(self.corrupt(src, base + i, b) for i, b in enumerate(data))
         pieces = self.chunker(src, data) if self.chunker else [(self.delay, data)]
